@@ -13,23 +13,11 @@ Ltac hcfg cm ap := apply HInv_cfg with (cm := cm) (ap := ap); auto; try (cbn; li
 Lemma cfg_AC1 g n cm ap h i t :
   IA g n cm ap h -> g i = Some t ->
   cc t = 2 -> ca t = 0 -> k_ordinal ap + 1 = t_cord t -> k_target ap <> i ->
-  (forall j p, g j = Some p -> j = k_index ap -> k_target ap = k_index ap -> 2 <= ca p) ->
+  (forall j p, g j = Some p -> j = k_index ap /\ k_target ap = k_index ap -> 2 <= ca p) ->
   IA g n cm {| k_index := k_index ap; k_ordinal := k_ordinal ap; k_revision := k_revision ap; k_target := i; k_change := k_change ap |}
      (h ++ [ev PhChange StApply i InProgress]).
 Proof.
   intros [HS HH] Hi G1 G2 G3 G4 Gt. split; [cfg_sinv HS g ltac:(inst_gate Gt g) | hcfg cm ap].
-Qed.
-
-(* the Applied cursor skips a change whose apply FAILED or was ABORTED: index := i, ordinal := its ordinal, target := i *)
-Lemma cfg_bump g n cm ap h i t ap' :
-  IA g n cm ap h -> g i = Some t ->
-  cc t = 2 -> ca t = 3 \/ ca t = 5 -> k_ordinal ap < t_cord t ->
-  k_index ap' = i -> k_ordinal ap' = t_cord t -> k_revision ap' = k_revision ap -> k_target ap' = i ->
-  IA g n cm ap' (h ++ []).
-Proof.
-  intros [HS HH] Hi G1 G2 G3 E1 E2 E3 E4. split.
-  - sinv_by ltac:(rewrite ?E1, ?E2, ?E3, ?E4 in *) HS g idtac.
-  - apply HInv_cfg with (cm := cm) (ap := ap); auto; try lia.
 Qed.
 
 (* applyRollback PENDING: Applied.Target := Rollback.Index *)
@@ -41,15 +29,4 @@ Lemma cfg_AR1 g n cm ap h i t :
      (h ++ [ev PhRollback StApply i InProgress]).
 Proof.
   intros [HS HH] Hi G1 G2 G3 G4 G5 G6. split; [cfg_sinv HS g idtac | hcfg cm ap].
-Qed.
-
-(* applyRollback IN_PROGRESS, refused by the device: index := i, ordinal := Rollback.Ordinal *)
-Lemma cfg_AR3 g n cm ap h i t :
-  IA g n cm ap h -> g i = Some t ->
-  rc t = 2 -> ra t = 1 ->
-  IA g n cm {| k_index := i; k_ordinal := t_rord t; k_revision := k_revision ap; k_target := k_target ap; k_change := k_change ap |}
-     (h ++ []).
-Proof.
-  intros [HS HH] Hi G1 G2. split; [cfg_sinv HS g idtac |].
-  pose proof (b1 _ _ _ _ HS i t Hi G2). hcfg cm ap.
 Qed.
